@@ -178,14 +178,13 @@ Definition autobegin (c : cst) (s : st) : cst * st :=
       else (set_txn c (Some true), s)
   end.
 
-(* RootTransaction._close_impl: rollback if active (an error skips the cancel), cancel savepoints,
-   always detached afterwards *)
+(* RootTransaction._close_impl: rollback if active; in [finally] (also when the rollback raised):
+   cancel the savepoints, detach *)
 Definition root_close (c : cst) (s : st) : bool * cst * st :=
   match txn c with
   | Some true =>
       let '(ok, d1, s1) := db_rollback (cdb c) s in
-      let c1 := set_txn (set_cdb c d1) None in
-      (ok, if ok then cancel_nested c1 else c1, s1)
+      (ok, cancel_nested (set_txn (set_cdb c d1) None), s1)
   | Some false => (true, set_txn (cancel_nested c) None, s)
   | None => (true, c, s)
   end.
